@@ -23,6 +23,8 @@ TOOLS = os.path.join(VERIF, "tools", "target")
 MIRFACTS = os.path.join(TOOLS, "mirfacts", "debug", "mirfacts")
 GRAM = os.path.join(TOOLS, "gram", "debug", "gram")
 
+EXTRACT_VERSION = "2: overflow-checks=on debug-assertions=off mir-opt-level=0"
+
 GRAMMARS = {
     "interpreter": "src/lib/interpreter/interpreter.lalrpop",
     "preprocessor": "src/lib/preprocessor/preprocessor.lalrpop",
@@ -60,6 +62,7 @@ def source_files():
 
 def tree_hash():
     h = hashlib.sha256()
+    h.update(EXTRACT_VERSION.encode())
     for rel in source_files():
         h.update(rel.encode())
         h.update(b"\0")
@@ -100,7 +103,7 @@ def _extract(dest):
             {
                 "LD_LIBRARY_PATH": _nightly_sysroot() + "/lib",
                 "MIRFACTS_OUT": out,
-                "RUSTFLAGS": "-Zmir-opt-level=0 -Awarnings -Coverflow-checks=on -Cdebug-assertions=on",
+                "RUSTFLAGS": "-Zmir-opt-level=0 -Awarnings -Coverflow-checks=on -Cdebug-assertions=off",
                 "RUSTC_WORKSPACE_WRAPPER": MIRFACTS,
                 "CARGO_TARGET_DIR": os.path.join(scratch, "target"),
                 "CARGO_NET_OFFLINE": "true",
